@@ -32,7 +32,7 @@ RULE = ("case = one configuration (differential) or one (configuration, crash po
 ASSUMPTIONS = ["Linux /proc", "the harness puts /venv/bin on PATH so that the plug-in runner script is found", "population methods get an explicit seed option"]
 CASE_TIMEOUT = 240
 SHARD_TIMEOUT = {"quick": 900, "thorough": 7200}
-REQUIRED = {"quick": {"external_runs": 25, "trace_pairs_compared": 8, "kill_runs": 8, "evaluator_exception_runs": 4, "process_table_checked": 25, "messages_counted": 100, "__nontrivial__": 20},
+REQUIRED = {"quick": {"external_runs": 25, "trace_pairs_compared": 8, "kill_runs": 8, "evaluator_exception_runs": 3, "process_table_checked": 25, "messages_counted": 100, "__nontrivial__": 20},
             "thorough": {"external_runs": 300, "trace_pairs_compared": 80, "kill_runs": 120, "evaluator_exception_runs": 50, "process_table_checked": 300, "messages_counted": 2000, "__nontrivial__": 250}}
 N = {"quick": {"diff": 18, "kill": 3, "exc": 2}, "thorough": {"diff": 200, "kill": 30, "exc": 20}}
 MAX_ROUNDS_AFTER_DEATH = 6
